@@ -73,7 +73,14 @@ def rule_d6(toks, log):
     for i, t in enumerate(toks):
         if _is(t, 'fn') and not t[2]:
             j = i + 1
-            while not _is(toks[j], '('):
+            gd = 0          # depth inside the generic parameter list `fn name<..>(`: its parentheses
+            while True:     # (e.g. `F: FnOnce() -> T`) are not the parameter list
+                if toks[j][0] == 'p' and toks[j][1] == '<':
+                    gd += 1
+                elif toks[j][0] == 'p' and toks[j][1] in ('>', '>>') and gd > 0:
+                    gd -= len(toks[j][1])
+                elif gd == 0 and _is(toks[j], '('):
+                    break
                 j += 1
             e = _match_close(toks, j)
             if e + 1 < len(toks) and _is(toks[e + 1], '->') and not toks[e + 1][2]:
@@ -429,6 +436,11 @@ def _lower_for(pat, expr, loop_ann, body, n, ptypes, log):
 def rule_d8(toks, log):
     if not toks or not _is(toks[-1], '}'):
         return toks
+    # only functions with a (named) return value have a tail expression to bind
+    has_ret = any(_is(toks[i], '->') and _is(toks[i + 1], '(') and _is(toks[i + 2], 'ret')
+                  for i in range(len(toks) - 2))
+    if not has_ret:
+        return toks
     end = len(toks) - 1
     a = end
     while a > 0 and toks[a - 1][2]:
@@ -497,8 +509,6 @@ def rule_d9(toks, log):
         if head_end is None or head_end + 1 >= len(out) or not (out[head_end + 1][2] and _is(out[head_end + 1], '->')):
             i += 1
             continue
-        if not (i > 0 and out[i - 1][0] == 'p' and out[i - 1][1] in ('(', ',')):
-            raise Unsupported('D9: annotated closure is not a call argument')
         a = head_end + 1
         while a < len(out) and out[a][2]:
             a += 1
@@ -506,7 +516,9 @@ def rule_d9(toks, log):
             raise Unsupported('D9: closure without body')
         if _is(out[a], '{'):
             i = a
-            continue            # already a block
+            continue            # already a block (nothing to rewrite, also for `let f = || -> .. { .. }`)
+        if not (i > 0 and out[i - 1][0] == 'p' and out[i - 1][1] in ('(', ',')):
+            raise Unsupported('D9: annotated closure is not a call argument')
         d = 0
         e = a
         while e < len(out):
@@ -531,6 +543,104 @@ def rule_d9(toks, log):
 
 
 # ---------------------------------------------------------------------------------------
+# D4a: run-time `assert!(e)` ==> evaluate e, prove it true (the panic is unreachable under the precondition)
+
+def rule_d4a(toks, log):
+    """`assert!(E);` / `assert!(E, "msg" ..);` (a statement) ==> `let __assertK : bool = E ; assert(__assertK) ;`.
+    E is still *executed* (calls keep their contracts and preconditions); the proof obligation says the
+    assertion can never fire, i.e. the function does not panic here under its `requires`."""
+    out = []
+    i = 0
+    n = 0
+    while i < len(toks):
+        t = toks[i]
+        if t[0] == 'id' and t[1] == 'assert' and not t[2] and i + 2 < len(toks) and _is(toks[i + 1], '!') \
+                and not toks[i + 1][2] and _is(toks[i + 2], '('):
+            e = _match_close(toks, i + 2)
+            if not (e + 1 < len(toks) and _is(toks[e + 1], ';')):
+                raise Unsupported('D4a: assert! is not a statement')
+            if i > 0 and not (toks[i - 1][2] or (toks[i - 1][0] == 'p' and toks[i - 1][1] in (';', '{', '}'))):
+                raise Unsupported('D4a: assert! is not at statement position')
+            args = _split_top(toks[i + 3:e])
+            cond = args[0]
+            if not cond or any(x[2] for x in cond):
+                raise Unsupported('D4a: assert! condition shape')
+            v = '__assert%d' % n
+            n += 1
+            log.append('D4a `assert!(%s)` -> evaluated, then proof obligation (panic unreachable)' % _txt(cond)[:100])
+            out += toks_of('let %s : bool =' % v, False) + cond + toks_of('; assert ( %s ) ;' % v, False)
+            i = e + 2
+            continue
+        out.append(t)
+        i += 1
+    return out
+
+
+# ---------------------------------------------------------------------------------------
+# D10: f32/f64 arithmetic in a branch condition ==> opaque guard function
+
+_F_OPS = {'+', '-', '*', '/', '>', '<', '>=', '<=', '(', ')'}
+
+
+def _is_float_lit(t):
+    return t[0] == 'lit' and t[1][0].isdigit() and ('.' in t[1] or t[1].endswith(('f32', 'f64'))) \
+        and not t[1].startswith(('0x', '0b', '0o'))
+
+
+def rule_d10(toks, log):
+    """`if C {` where C contains a float literal or an `as f32`/`as f64` cast and consists only of identifiers,
+    float literals, `+ - * / < > <= >=`, parentheses and such casts ==> `if __f32_guardK(ids..) {` (ids = the
+    distinct identifiers of C in order of first occurrence; K counts the guards of the function).
+    Verus has no usable model of float arithmetic (every `+`/`*` on f32 carries an unprovable precondition and
+    `usize as f32` is rejected), so the test is abstracted into an uninterpreted-but-declared function of the same
+    inputs; whatever the unit assumes about `__f32_guardK` is a TRUSTED statement about that float expression."""
+    out = []
+    i = 0
+    n = 0
+    while i < len(toks):
+        t = toks[i]
+        if _is(t, 'if') and not t[2]:
+            j = i + 1
+            d = 0
+            while j < len(toks) and not (d == 0 and _is(toks[j], '{')):
+                if toks[j][0] == 'p' and toks[j][1] in ('(', '['):
+                    d += 1
+                elif toks[j][0] == 'p' and toks[j][1] in (')', ']'):
+                    d -= 1
+                j += 1
+            cond = toks[i + 1:j]
+            floaty = any(_is_float_lit(x) for x in cond) or any(
+                _is(cond[k], 'as') and k + 1 < len(cond) and cond[k + 1][1] in ('f32', 'f64') for k in range(len(cond)))
+            if floaty and not any(x[2] for x in cond):
+                ids = []
+                k = 0
+                while k < len(cond):
+                    x = cond[k]
+                    if _is(x, 'as'):
+                        if not (k + 1 < len(cond) and cond[k + 1][1] in ('f32', 'f64')):
+                            raise Unsupported('D10: cast in float condition: ' + _txt(cond))
+                        k += 2
+                        continue
+                    if x[0] == 'id':
+                        if x[1] not in ids:
+                            ids.append(x[1])
+                    elif _is_float_lit(x) or (x[0] == 'p' and x[1] in _F_OPS):
+                        pass
+                    else:
+                        raise Unsupported('D10: float condition shape: ' + _txt(cond))
+                    k += 1
+                g = '__f32_guard%d' % n
+                n += 1
+                log.append('D10 float test `%s` -> opaque guard %s(%s)' % (_txt(cond), g, ', '.join(ids)))
+                out += [t] + toks_of('%s ( %s )' % (g, ' , '.join(ids)), False)
+                i = j
+                continue
+        out.append(t)
+        i += 1
+    return out
+
+
+# ---------------------------------------------------------------------------------------
 
 def lower(toks, marks, opts=None):
     """toks: [(kind,text)], marks: [bool]; returns ([(kind,text)], log)."""
@@ -540,6 +650,8 @@ def lower(toks, marks, opts=None):
     ts = rule_d5(ts, log)
     ts = rule_d6(ts, log)
     ts = rule_d3(ts, log, drop=opts.get('drop_asserts', ()))
+    ts = rule_d4a(ts, log)
+    ts = rule_d10(ts, log)
     ts = rule_d7(ts, log)
     ts = rule_d1(ts, log)
     ts = rule_d9(ts, log)
